@@ -224,6 +224,7 @@ type env struct {
 		Eightbit []string `json:"eightbit"`
 	}
 	drifts int
+	skipped int // defect cases replayed without the vector path
 	quiet  bool // negative control: count drift, do not report it
 	lastQuiet string
 }
@@ -344,6 +345,8 @@ type witness struct {
 	Paths    [][]string `json:"paths,omitempty"`
 }
 
+const defectReplays = 80
+
 const (
 	sigUnionNulls = "vector-path:union-with-nulls"
 	sigErrorNulls = "vector-path:error-under-nullable-record"
@@ -421,6 +424,22 @@ func (e *env) checkCase(family string, cs *Case, uniIdx, scale int) error {
 	for _, p := range cs.Proj {
 		req.Projs = append(req.Projs, p.Paths)
 	}
+	// Every modelled defect of the vector path is replayed on its first
+	// cases; beyond that only the writer, the metadata and the row reader
+	// are checked for such cases (each replay costs a crashed child).
+	e.mu.Lock()
+	for _, d := range cs.Defects {
+		if e.defect[d] >= defectReplays {
+			req.SkipVec = true
+		}
+	}
+	for _, d := range cs.Defects {
+		e.defect[d]++
+	}
+	if req.SkipVec {
+		e.skipped++
+	}
+	e.mu.Unlock()
 	run := <-e.pool
 	defer func() { e.pool <- run }()
 	out, err := run.do(req)
@@ -449,7 +468,11 @@ func (e *env) checkCase(family string, cs *Case, uniIdx, scale int) error {
 	if res.Err != "" {
 		return fmt.Errorf("case %v: %s", req.Values, res.Err)
 	}
-	if res.Row == nil || res.Vec == nil || len(res.Proj) != len(cs.Proj) {
+	if req.SkipVec && res.Row != nil {
+		res.Vec = &readResult{Vals: res.In}
+		res.Proj = nil
+	}
+	if res.Row == nil || res.Vec == nil || (!req.SkipVec && len(res.Proj) != len(cs.Proj)) {
 		b, _ := json.Marshal(res)
 		return fmt.Errorf("incomplete child response for %v: %s", req.Values, b)
 	}
@@ -503,7 +526,7 @@ func (e *env) checkCase(family string, cs *Case, uniIdx, scale int) error {
 		}
 		// for cases with a modelled defect the spec predicts THAT the vector
 		// path fails, not the exact shape of the failure
-		if len(cs.Defects) == 0 && !eqInts(res.Vec.Flat, cs.Vec) {
+		if len(cs.Defects) == 0 && !req.SkipVec && !eqInts(res.Vec.Flat, cs.Vec) {
 			e.drift("vector path: spec predicts %v, real %v (%s) for %v", cs.Vec, res.Vec.Flat, res.Vec.Err, res.In)
 		}
 		for pi, pr := range res.Proj {
@@ -531,9 +554,6 @@ func (e *env) checkCase(family string, cs *Case, uniIdx, scale int) error {
 				shapeKinds(res.Meta[j], e.kinds)
 			}
 		}
-	}
-	for _, d := range cs.Defects {
-		e.defect[d]++
 	}
 	return nil
 }
@@ -979,6 +999,7 @@ func run(c *core.Ctx) error {
 	c.Set("children_died_after_answering", late)
 	c.Set("real_column_kinds_seen", e.kinds)
 	c.Set("cases_with_modelled_defect", e.defect)
+	c.Set("defect_cases_replayed_without_vector_path", e.skipped)
 	c.Logf("boundary columns done: kinds seen %v; %d violations", e.kinds, c.Violations())
 	for _, k := range []string{"const", "dict", "plain", "nulls", "rec", "arr", "set", "map", "union", "named", "err", "boundary-const", "boundary-dict", "boundary-plain"} {
 		if e.kinds[k] == 0 {
